@@ -658,6 +658,10 @@ def _interp_internal_get_weights(oldx, newx):
 # apply interp from weights
 def _interp_internal_from_weight(arr, axis, left, right, lhs_idx, rhs_idx, frac, left_idx, right_idx):
     " numpy ==> numpy "
+    # compute in double precision, like numpy.interp (integer differences may not fit their type)
+    if arr.dtype.kind in 'biuf':
+        arr = np.asarray(arr, dtype=float)
+
     # pre-broadcast dimensions
     if arr.ndim > 1:
         arr = arr.swapaxes(axis, 0) # make the interp axis the first axis
